@@ -11,6 +11,7 @@ import (
 	"context"
 	"fmt"
 	"os"
+	"sync/atomic"
 	"time"
 
 	"github.com/ozontech/seq-db/fracmanager"
@@ -41,14 +42,15 @@ func runRaceStats(seed uint64, rounds int) *RaceResult {
 		panic(err)
 	}
 	hits := make(chan struct{}, 8)
-	var gate chan struct{}
+	var gate atomic.Pointer[atomic.Bool]
 	verifhook.Set(func(name string) {
 		if name != "append.after-queue" {
 			return
 		}
-		g := gate
+		g := gate.Load()
 		hits <- struct{}{}
-		<-g
+		for !g.Load() { // spin: both workers are on a CPU when the gate opens
+		}
 	})
 	defer verifhook.Set(nil)
 	r := rng.New(seed)
@@ -99,7 +101,8 @@ func runRaceStats(seed uint64, rounds int) *RaceResult {
 		if r.Bool() {
 			bulks[0], bulks[1] = bulks[1], bulks[0]
 		}
-		gate = make(chan struct{})
+		g := &atomic.Bool{}
+		gate.Store(g)
 		errs := make(chan error, 2)
 		for _, b := range bulks {
 			docs, metas := encodeBulk(b)
@@ -119,7 +122,8 @@ func runRaceStats(seed uint64, rounds int) *RaceResult {
 				viol("append-error", "FracManager.Append returned an error", err.Error())
 			}
 		}
-		close(gate) // both workers run UpdateStats now
+		time.Sleep(20 * time.Microsecond)
+		g.Store(true) // both workers run UpdateStats now
 		if !ok {
 			break
 		}
